@@ -249,8 +249,15 @@ class Canon(object):
             if isinstance(e, ast.Compare):
                 return simple(e.left, ok_names) and all(simple(x, ok_names) for x in e.comparators)
             if isinstance(e, ast.Call) and isinstance(e.func, ast.Name) and e.func.id == 'len' and len(e.args) == 1 and not e.keywords:
-                return isinstance(e.args[0], ast.Name) and e.args[0].id in ok_names
+                # only for an object nothing in the function can grow or shrink: no method call on it, no item / slice store or delete
+                return isinstance(e.args[0], ast.Name) and e.args[0].id in ok_names and e.args[0].id not in mutated
             return False
+        mutated = set()
+        for n in ast.walk(fn):
+            if isinstance(n, ast.Call) and isinstance(n.func, ast.Attribute) and isinstance(n.func.value, ast.Name):
+                mutated.add(n.func.value.id)
+            elif isinstance(n, ast.Subscript) and isinstance(n.ctx, (ast.Store, ast.Del)) and isinstance(n.value, ast.Name):
+                mutated.add(n.value.id)
         # single-assigned locals count as stable operands too (their own value does not change once set), loop targets do not
         once = set(defs)
         subst = {}
